@@ -174,6 +174,8 @@ def select_kwargs(side, sel):
         return {"start": BASE + a * TICK, "end": BASE + b * TICK}
     if kind == "tag":
         return {"filters": {"tag": TAG[a]}}
+    if kind == "emptylist":
+        return {"files": []}
     return {"files": [sorted(side.fs.find(), key=lambda i: (i.times[0], i.times[1], i.attr.get("tag", "")))[0]]}
 
 
